@@ -500,6 +500,121 @@ def compile_targets(text, f, sup, name, res, V, label):
         res["evals"] += 1
 
 
+def fuzz_tier(check, seconds, res_viol, forks=16):
+    """Thorough only: a libFuzzer target of our own (rust/fuzz-frontend; the repository's two targets no
+    longer compile) built with ASan from the current tree, seeded with generator descriptions, the pinned
+    corpus and the probes. Panics are *events* in a log (the target catches them and goes on); crashes,
+    hangs and OOMs are libFuzzer artifacts, re-run through the plain driver before they count."""
+    import glob
+    import shutil
+    import time
+    src = os.path.join(common.VERIF, "rust", "fuzz-frontend")
+    d = os.path.join(build.WORK, "fuzz-" + build._repo_tag())
+    os.makedirs(os.path.join(d, "fuzz_targets"), exist_ok=True)
+    build._write_if_changed(os.path.join(d, "Cargo.toml"),
+                            open(os.path.join(src, "Cargo.toml.in")).read().replace("@REPO@", os.path.abspath(build.REPO)))
+    build._write_if_changed(os.path.join(d, "fuzz_targets", "frontend.rs"),
+                            open(os.path.join(src, "fuzz_targets", "frontend.rs")).read())
+    if not os.path.exists(os.path.join(d, "Cargo.lock")):
+        shutil.copy(os.path.join(build.REPO, "Cargo.lock"), os.path.join(d, "Cargo.lock"))
+    env = dict(os.environ, CARGO_NET_OFFLINE="true")
+    env.pop("RUSTFLAGS", None)
+    with build.Lock("build-fuzz"):
+        rc, out, dt = build.run(["cargo", "+nightly", "fuzz", "build", "--fuzz-dir", ".", "frontend"], cwd=d, env=env,
+                                check=False, timeout=3600)
+    if rc != 0:
+        return {"libfuzzer": {"status": "fuzz target did not build (inconclusive, not a verdict)", "output": out[-600:]}}
+    cdir = os.path.join(d, "corpus", "frontend")
+    adir = os.path.join(d, "artifacts", "frontend")
+    shutil.rmtree(adir, ignore_errors=True)
+    os.makedirs(cdir, exist_ok=True)
+    os.makedirs(adir, exist_ok=True)
+    n = 0
+    for dd in corpus.descriptions(check.seed, 3):
+        with open(os.path.join(cdir, "gen-%s.pdl" % dd["name"]), "w") as f:
+            f.write(dd["text"])
+        n += 1
+    for root, _, files in os.walk(os.path.join(common.VERIF, "corpus")):
+        for fn in files:
+            if fn.endswith(".pdl"):
+                shutil.copy(os.path.join(root, fn), os.path.join(cdir, "pinned-" + fn))
+                n += 1
+    lit = json.load(open(os.path.join(common.VERIF, "corpus", "analyzer_literals.json")))
+    for i, t in enumerate([e["text"] for e in lit["raises"]] + list(lit["valid"])):
+        with open(os.path.join(cdir, "lit-%d.pdl" % i), "w") as f:
+            f.write(t)
+        n += 1
+    for i, (lab, _, text) in enumerate(PROBES):
+        with open(os.path.join(cdir, "probe-%d.pdl" % i), "w") as f:
+            f.write("little_endian_packets\n" + text + "\n")
+        n += 1
+    with open(os.path.join(d, "pdl.dict"), "w") as f:
+        for k in KEYWORDS + ["..", "0x", "0X", "[+", "]", "{", "}", "(", ")", ":", ",", "=", "/*", "*/", "//", "\\\""]:
+            f.write("\"%s\"\n" % k.replace("\\", "\\\\").replace("\"", "\\\""))
+    log = os.path.join(d, "events.jsonl")
+    if os.path.exists(log):
+        os.unlink(log)
+    env["PV_FUZZ_LOG"] = log
+    t0 = time.time()
+    rc, out, dt = build.run(["cargo", "+nightly", "fuzz", "run", "--fuzz-dir", ".", "frontend", "--",
+                             "-fork=%d" % forks, "-max_total_time=%d" % seconds, "-timeout=10", "-max_len=8192",
+                             "-rss_limit_mb=4096", "-dict=pdl.dict", "-ignore_crashes=1", "-ignore_timeouts=1",
+                             "-ignore_ooms=1"], cwd=d, env=env, check=False, timeout=seconds + 1800)
+    runs = 0
+    cov = 0
+    for m in re.finditer(r"#(\d+): cov: (\d+) ft: (\d+) corp: (\d+)", out):
+        runs = max(runs, int(m.group(1)))
+        cov = max(cov, int(m.group(2)))
+    events = {}
+    unscoped = {}
+    if os.path.exists(log):
+        for line in open(log, errors="replace"):
+            try:
+                e = json.loads(line)
+            except ValueError:
+                continue
+            sig = _sig(e)
+            if e["stage"] in ("parse", "analyze", "gen:json"):
+                who = {"parse": "parser", "analyze": "analyzer", "gen:json": "json"}[e["stage"]]
+                events.setdefault("C10|%s|panic:%s" % (who, sig), e)
+            else:
+                k = "%s|%s" % (e["stage"], sig)
+                unscoped[k] = unscoped.get(k, 0) + 1
+    for sig, e in events.items():
+        text = bytes.fromhex(e["input_hex"]).decode("utf-8", "replace")
+        res_viol.append((sig, {"class": "libfuzzer", "source": text[:6000], "observed": {"loc": e["loc"], "msg": e["msg"]}}))
+    # crash / timeout / oom artifacts: only what the plain driver reproduces is a verdict
+    arts = sorted(glob.glob(os.path.join(adir, "*")))
+    reproduced = 0
+    not_reproduced = 0
+    if arts:
+        drv = Driver(timeout=60)
+        for a in arts[:40]:
+            data = open(a, "rb").read()
+            try:
+                text = data.decode("utf-8")
+            except UnicodeDecodeError:
+                not_reproduced += 1
+                continue
+            r = drv.request(text, ["analyze", "gen:json"], timeout=60, emit=False)
+            kind = os.path.basename(a).split("-")[0]
+            if "crash" in r:
+                reproduced += 1
+                res_viol.append(("C10|front-end|crash:%s|libfuzzer" % r["crash"].get("returncode"),
+                                 {"class": "libfuzzer:" + kind, "source": text[:6000], "observed": r["crash"]}))
+            elif "timeout" in r:
+                reproduced += 1
+                res_viol.append(("C10|front-end|does-not-terminate|libfuzzer", {"class": "libfuzzer:" + kind, "source": text[:6000]}))
+            else:
+                not_reproduced += 1   # e.g. only under ASan's larger stack frames / slower execution
+        drv.close()
+    return {"libfuzzer": {"seconds": round(time.time() - t0), "forks": forks, "executions": runs, "coverage_edges": cov,
+                          "seed_corpus_files": n, "panic_events_front_end": len(events),
+                          "backend_panics_outside_scope_evidence_only": dict(sorted(unscoped.items(), key=lambda kv: -kv[1])[:15]),
+                          "artifacts": len(arts), "artifacts_reproduced_in_plain_driver": reproduced,
+                          "artifacts_not_reproduced": not_reproduced, "exit": rc}}
+
+
 def run(tier):
     check = common.Check("C10", tier)
     nseeds = 48 if tier == "thorough" else 12
@@ -580,6 +695,10 @@ def run(tier):
             first = why.get("error", "").split("\n")[0]
             V("rust|generated-code-does-not-compile:%s|%s" % (norm_compile(first), d["profile"]),
               {"source": d["text"], "observed": why.get("error", "")[:2500]})
+    fz = {}
+    if tier == "thorough":
+        fz = fuzz_tier(check, int(os.environ.get("VERIF_FUZZ_SECONDS", "420")), res["viol"])
+        res["evals"] += fz.get("libfuzzer", {}).get("executions", 0)
     results.append(_done(res))
     tot = {"evals": 0, "nontrivial": set(), "labels": {}, "unscoped": {}, "parsed": 0, "accepted": 0,
            "rejected_by_parser": 0, "compiled": {"python": 0, "cxx": 0, "java": 0}}
@@ -605,6 +724,7 @@ def run(tier):
            "target_compilations_ok": dict(tot["compiled"], rust=len(rc.live) + len(prc.live)),
            "backend_failures_outside_scope_evidence_only": dict(sorted(tot["unscoped"].items(), key=lambda kv: -kv[1])[:25]),
            "probes": len(PROBES), "absurd_files": len(ABSURD),
+           **fz,
            "note_repo_fuzz_targets": "the repository's own fuzz targets (fuzz/fuzz_targets/*.rs) no longer compile against the current API"}
     return check.finish(cov, assumptions=["a backend failure counts only for generator descriptions (inside the backend's documented construct set) and the curated probes",
                                           "sources are bounded by 64 KiB except the listed hazards"],
